@@ -74,3 +74,23 @@ Proof. exact left_compare_consistent. Qed.
 (* finding F13 (repaired in /repo): the previous operator== ignored `full` for empty left states *)
 Theorem C02_pre_fix_left_eq_hash_refuted : exists a b, pre_fix_left_eq a b = true /\ left_hash_input a <> left_hash_input b.
 Proof. exact pre_fix_left_eq_hash_refuted. Qed.
+
+(* ---- the same for the answers computed from the MEMORY of the trie (C03_memory_table_invariants): the state returned by FullScore
+   over the table decoded from the bit-level memory is sufficient -- same probability as the whole history, equal to GetState, valid. *)
+From Kenlm Require Import C03.TrieEndToEnd.
+Corollary C02_memory_state_sufficient : forall (array : bool) cfg N V (t : atable) pz M K,
+  (2 <= N)%nat -> 0 <= V < 2 ^ 32 -> 0 <= cfg -> TInv N (alookup t) M -> NoDup (map fst t) ->
+  (forall w, alookup t [w] <> None <-> Z.of_N w < V) ->
+  (forall k e, alookup t k = Some e -> - 2 ^ 24 < e_prob e < 2 ^ 24 /\ - 2 ^ 24 < e_bo e < 2 ^ 24) ->
+  (forall k e, alookup t k = Some e -> (2 <= length k)%nat -> e_prob e <= 0) ->
+  (forall k e, alookup t k = Some e -> length k = N -> e_bo e = 0) ->
+  Z.of_nat (N * length t) < 2 ^ 57 ->
+  let T' := mem_table array cfg N V t pz in
+  forall s h w, valid N T' M s h -> T' [w] <> None ->
+  r_prob (fst (full_score N T' s w)) = r_prob (fst (full_score_forgot N T' K h w)) /\
+  snd (full_score N T' s w) = get_state N T' (w :: h) /\
+  valid N T' M (snd (full_score N T' s w)) (w :: h).
+Proof.
+  intros array cfg N V t pz M K HN HV Hc Inv Hnd Hd Hr Hneg Hl Hs T' s h w Hv Hw.
+  exact (C02_state_sufficient N T' M K HN (mem_table_TInv array cfg N V t pz M HN HV Hc Inv Hnd Hd Hr Hneg Hl Hs) s h w Hv Hw).
+Qed.
